@@ -112,6 +112,8 @@ class World:
             kw = {}
             if "field_parent_conc" in cfg:
                 kw["parent_concurrently"] = cfg["field_parent_conc"]
+            if "seq_fields" in cfg:
+                kw["parent_concurrently"] = fn not in cfg["seq_fields"]
             if "field_list_conc" in cfg:
                 kw["list_concurrently"] = cfg["field_list_conc"]
 
